@@ -175,7 +175,8 @@ def run(ctx):
                 "fact_jar_keyset", "accept_jarSet", "jarSet_unpublished_kid_rejected", "jarSet_first_entry_decides", "jarValidateSet_refines",
                 "jarSet_exit_ok_iff", "loopNoFound_accepts_every_unpublished_kid",
                 "fact_caseVariant_loop", "fact_cvSep", "structLoop_none_iff", "structLoop_sound", "caseVariant_verdict_order_independent",
-                "clean_document_decodes_exact_names", "vcJsonLdDocS_refines", "accept_vcJsonLdDocS", "exact_compare_misses_case_variant"]
+                "clean_document_decodes_exact_names", "vcJsonLdDocS_refines", "accept_vcJsonLdDocS", "exact_compare_misses_case_variant",
+                "accepted_jsonld_reads_what_was_signed"]
     for r in required:
         if not any(t.endswith("Props." + r) for t in thms):
             ctx.oblige("thm-present:" + r, False, "theorem missing or its module does not build")
